@@ -81,6 +81,13 @@ func framePool(idx uint64) (frame []byte, label string) {
 	g := lib.NewPlanGen(rng, o)
 	p := g.Fill()
 	b := p.Bytes()
+	if k%12 == 9 || k%12 == 10 {
+		// record area of exactly a multiple of the read buffer
+		if lib.PadPlanToDataSize(p, rng, 4096*(1+int(k/12)%3)) {
+			b = p.Bytes()
+			return b, fmt.Sprintf("model#%d(data size %d)", k, len(b)-int(b[0])-2)
+		}
+	}
 	if k%6 == 3 || k%6 == 4 {
 		// Trim or extend with records so that the frame length lands near a buffer boundary.
 		target := 4096 * int(k%6-2)
